@@ -144,7 +144,7 @@ Definition send_binding_success (m : msg) (l r : cand) : M :=
 
 (* ---- pairs and candidates -------------------------------------------------------------- *)
 Definition new_pair (id : Z) (l r : cand) (ctl : bool) : pair :=
-  mkPair id l r ctl CandidatePairStateWaiting false false 0 None 0 0 0 0 0 0 0 0.
+  mkPair id l r ctl CandidatePairStateWaiting false false None 0 None 0 0 0 0 0 0 0 0.
 
 (* Agent.addPair *)
 Definition add_pair (l r : cand) : M :=
@@ -185,6 +185,8 @@ Definition copy_activity (old new : cand) : M :=
 
 (* Agent.addRemoteCandidate; returns whether the candidate was accepted *)
 Definition add_remote (cfg : config) (c : cand) (k : bool -> M) : M :=
+  with_state s_conn (fun conn =>
+  if conn =? ConnectionStateFailed then k false else
   if negb (accepts_remote cfg c) then k false else
   with_state (fun s => filter (fun e => c_net e =? c_net c) (s_remotes s)) (fun set =>
     if existsb (fun e => cand_equal e c) set then k true else
@@ -200,12 +202,14 @@ Definition add_remote (cfg : config) (c : cand) (k : bool -> M) : M :=
        for_each locals (fun l =>
          with_state (find_pair l c) (fun op =>
            match op with Some _ => nop | None => add_pair l c end)))) ;;
-    k true).
+    k true)).
 
 (* Agent.addCandidate (local) *)
 Definition add_local (c : cand) : M :=
-  with_state (fun s => filter (fun e => c_net e =? c_net c) (s_locals s)) (fun set =>
-    if existsb (fun e => cand_equal e c) set then emit (OClosedCand (c_h c)) ;; emit (ORet RDuplicate) else
+  with_state (fun s => (s_conn s, filter (fun e => c_net e =? c_net c) (s_locals s))) (fun '(conn, set) =>
+    (* a candidate gathered after the agent failed, or a duplicate, is closed and dropped *)
+    if (conn =? ConnectionStateFailed) || existsb (fun e => cand_equal e c) set
+    then emit (OClosedCand (c_h c)) ;; emit (ORet RDuplicate) else
     modify (fun s => set_s_locals (s_locals s ++ [c]) s) ;;
     with_state (fun s => filter (fun r => c_net r =? c_net c) (s_remotes s)) (fun remotes =>
       for_each remotes (fun r => add_pair c r)) ;;
@@ -411,17 +415,25 @@ Definition handle_success_controlled (cfg : config) (m : msg) (l r : cand) (src 
         | Some p0 =>
           upd_pair (p_id p0) (set_p_state CandidatePairStateSucceeded) ;;
           (if p_nom_on_succ p0 then
-             with_state (fun s => (selected_pair s, pair_by_id (p_id p0) s)) (fun '(osp, op1) =>
+             with_state (fun s => (selected_pair s, pair_by_id (p_id p0) s, s_last_nom s)) (fun '(osp, op1, ln) =>
                match op1 with
                | None => nop
                | Some p =>
-                 match osp with
-                 | None => set_selected (p_id p)
-                 | Some sp =>
-                   if negb (p_id sp =? p_id p)
-                      && (negb (needsToCheckPriorityOnNominated (cf_lite cfg) (cf_check_prio cfg))
-                          || (pair_priority sp <=? pair_priority p))
+                 let same := match osp with Some sp => p_id sp =? p_id p | None => false end in
+                 match p_nom_value p with
+                 | Some v =>
+                   (* renomination: wins while it is still the latest accepted value *)
+                   if negb same && match ln with Some cur => cur =? v | None => false end
                    then set_selected (p_id p) else nop
+                 | None =>
+                   match osp with
+                   | None => set_selected (p_id p)
+                   | Some sp =>
+                     if negb same
+                        && (negb (needsToCheckPriorityOnNominated (cf_lite cfg) (cf_check_prio cfg))
+                            || (pair_priority sp <=? pair_priority p))
+                     then set_selected (p_id p) else nop
+                   end
                  end
                end)
            else nop) ;;
@@ -469,7 +481,7 @@ Definition handle_request_controlled (cfg : config) (m : msg) (l r : cand) : M :
                         (match osp with Some sp => pair_priority sp | None => 0 end)
                         (pair_priority p)
                    then set_selected id else nop
-                 else upd_pair id (set_p_nom_on_succ true)
+                 else upd_pair id (fun p => set_p_nom_value (m_nom m) (set_p_nom_on_succ true p))
                end) ;;
              send_binding_success m l r ;;
              with_state (fun s => (pair_by_id id s, selected_pair s)) (fun '(op1, osp) =>
